@@ -49,6 +49,10 @@ CALLS = {
     'compose': ("sm.SE3.Rx(S['a']) * sm.SE3.Ry(S['b']) * sm.SE3(S['x'], S['y'], S['z'])", ['a', 'b', 'x', 'y', 'z']),
     'divide': ("sm.SE3.Rx(S['a']) / sm.SE3.Ry(S['b'])", ['a', 'b']),
     'points': ("sm.SE3.Rx(S['a']) * [2, 3, 5]", ['a']),
+    # simplify(): the symbolic result after simplification must still equal the (unsimplified) numeric product
+    'simplify': ("(sm.SE3.Rx(S['a']) * sm.SE3.Rx(S['a'])).simplify()", ['a'], "sm.SE3.Rx(S['a']) * sm.SE3.Rx(S['a'])"),
+    'simplify:Ry': ("(sm.SE3.Ry(S['a']) * sm.SE3(S['x'], 2, S['z'])).simplify()", ['a', 'x', 'z'], "sm.SE3.Ry(S['a']) * sm.SE3(S['x'], 2, S['z'])"),
+    'simplify:Rx-t': ("(sm.SE3(S['x'], S['y'], S['z']) * sm.SE3.Rx(S['a'])).simplify()", ['a', 'x', 'y', 'z'], "sm.SE3(S['x'], S['y'], S['z']) * sm.SE3.Rx(S['a'])"),
     'points:sym': ("(sm.SE3(S['x'], S['y'], S['z']) * sm.SE3.Rz(S['a'])) * [S['b'], 2, S['c']]", ['a', 'b', 'c', 'x', 'y', 'z']),
 }
 # documented entries -> the calls that exercise them
@@ -59,9 +63,8 @@ DOCUMENTED = {'rotx': ['rotx', 'rotx:deg'], 'roty': ['roty'], 'rotz': ['rotz'], 
               'qpow': ['qpow'], 'SO3.__init__': ['SO3.R'], 'SO3.R': ['SO3.R'], 'SE3.__init__': ['SE3()'], 'SE3.t': ['SE3.t'], 'SE3.inv': ['SE3.inv'],
               'SE3.Ad': ['SE3.Ad'], 'SE3.jacob': ['SE3.jacob'], 'SE3.Rx': ['SE3.Rx'], 'SE3.Ry': ['SE3.Ry'], 'SE3.Rz': ['SE3.Rz'],
               'SE3.Eul': ['SE3.Eul'], 'SE3.RPY': ['SE3.RPY'], 'SE3.Delta': ['SE3.Delta'], 'SE3.Tx': ['SE3.Tx'], 'SE3.Ty': ['SE3.Ty'],
-              'SE3.Tz': ['SE3.Tz']}
-NOT_COVERED = {'SMPose.simplify': 'returns SymPy-simplified objects; compared only through the operators above',
-               'Twist3.Rx': 'Twist3.Rx/Ry/Rz are not constructors of symbolic values in this snapshot (they build unit twists from numbers)',
+              'SE3.Tz': ['SE3.Tz'], 'SMPose.simplify': ['simplify', 'simplify:Ry', 'simplify:Rx-t']}
+NOT_COVERED = {'Twist3.Rx': 'Twist3.Rx/Ry/Rz are not constructors of symbolic values in this snapshot (they build unit twists from numbers)',
                'Twist3.Ry': 'see Twist3.Rx', 'Twist3.Rz': 'see Twist3.Rx'}
 
 
@@ -102,10 +105,12 @@ def documented_list_is_covered(env, cfg, ck):
                           'spatialmath.super_pose.SMPose.__mul__', 'spatialmath.base.argcheck.getvector', 'spatialmath.base.symbolic.sin'],
           configs=[{'call': c} for c in CALLS], domain=False)
 def symbolic_result_equals_numeric_result(env, cfg, ck):
-    src, names = CALLS[cfg['call']]
+    entry = CALLS[cfg['call']]
+    src, names = entry[0], entry[1]
+    num_src = entry[2] if len(entry) > 2 else src
     S = {n: env.real(n) for n in names}
     ns = {'sm': env.sm, 'base': env.base, 'np': env.np, 'S': S, 'pi': env.pi}
-    num = ck.call(eval, src, ns)
+    num = ck.call(eval, num_src, ns)
     if hasattr(num, 'A') and hasattr(num, 'data') and isinstance(num.data, list):
         num = num.A
     sym = env.sympy_call(src, names)
